@@ -63,7 +63,7 @@ func upuInfoGetHeader(reg bool, ack bool) (buf uint8) {
 }
 
 func UpuAckToModels(buf []uint8) (string, error) {
-	if (buf[0] != 0x01) || (len(buf) != 17) {
+	if (len(buf) != 17) || (buf[0] != 0x01) {
 		return "", fmt.Errorf("NAS UPU Ack is not valid")
 	}
 	return hex.EncodeToString(buf[1:]), nil
